@@ -377,13 +377,14 @@ xds_decoder(vbi_decoder *vbi, int _class, int type,
 
 		case 7:		/* program caption services */
 		{
+			unsigned char *lang[8];
 			int services = 0;
 
 			if (length > 8)
 				return;
 
 			for (i = 0; i < 8; i++)
-				pi->caption_language[i] = NULL;
+				lang[i] = NULL;
 
 			for (i = 0; i < length; i++) {
 				int ch = buffer[i] & 7;
@@ -399,13 +400,17 @@ xds_decoder(vbi_decoder *vbi, int _class, int type,
 				s = ((1 << l) & 0xC1) ? NULL :
 					(unsigned char *) language[l];
 
-				if (pi->caption_language[ch] != (unsigned char *) s) {
-					neq = 1; pi->caption_language[ch] = (unsigned char *) s;
-				}
+				lang[ch] = s;
 
 				if (_class == XDS_CURRENT)
-					vbi->cc.channel[ch].language =
-						pi->caption_language[ch];
+					vbi->cc.channel[ch].language = s;
+			}
+
+			for (i = 0; i < 8; i++) {
+				if (pi->caption_language[i] != lang[i]) {
+					neq = 1;
+					pi->caption_language[i] = lang[i];
+				}
 			}
 
 			xds_intfu(pi->caption_services, services);
